@@ -43,22 +43,25 @@ pub fn parse_csv_row(row: &str) -> Vec<String> {
     let mut rdr = csv_core::Reader::new();
     let mut bytes = row.as_bytes();
     let mut output = [0; 4096];
+    let mut field = vec![];
     loop {
         let (result, nin, nout) = rdr.read_field(bytes, &mut output);
+        field.extend_from_slice(&output[..nout]);
+        bytes = &bytes[nin..];
         let end = match result {
+            // The field is longer than the output buffer: it continues.
+            ReadFieldResult::OutputFull => continue,
             ReadFieldResult::InputEmpty => true,
             // A field that ends the record is the last one: it is produced at the end of the
             // input when the row ends with a comma, and reading on would report a second,
             // spurious empty field.
             ReadFieldResult::Field { record_end } => record_end,
             ReadFieldResult::End => true,
-            _ => unreachable!(),
         };
-        features.push(std::str::from_utf8(&output[..nout]).unwrap().to_string());
+        features.push(String::from_utf8(std::mem::take(&mut field)).unwrap());
         if end {
             break;
         }
-        bytes = &bytes[nin..];
     }
     features
 }
